@@ -111,8 +111,49 @@ def one_off_grid():
 # ---------------------------------------------------------------------------------------
 # the steps before parsing, with ural's own pieces
 # ---------------------------------------------------------------------------------------
+_MEMO = {}
+
+
+def _memo(key, fn):
+    """small per-process memo: ops / impl / oracle / classify of one case ask the same things"""
+    if key in _MEMO:
+        return _MEMO[key]
+    if len(_MEMO) > 20000:
+        _MEMO.clear()
+    try:
+        v = ("ok", fn())
+    except Exception as e:  # noqa
+        v = ("err", e)
+    _MEMO[key] = v
+    return v
+
+
+def _unmemo(v):
+    if v[0] == "err":
+        raise v[1]
+    return v[1]
+
+
 def prepare(url, opts=None):
-    """what normalize_url(url, **opts) hands to urlsplit"""
+    """what normalize_url(url, **opts) hands to urlsplit (memoised)"""
+    o = full_opts(opts)
+    return _unmemo(_memo(("prep", url, o["infer_redirection"], o["platform_aware"]), lambda: _prepare(url, o)))
+
+
+def real_both(url, opts=None, query_item_filter=None):
+    """(unsplit=False result, string) of the real normalize_url (memoised; raises what it raises)"""
+    o = full_opts(opts)
+    return _unmemo(_memo(("real", url, lib.jd(o), query_item_filter), lambda: _real_both(url, o, query_item_filter)))
+
+
+def _real_both(url, o, query_item_filter):
+    from ural import normalize_url
+
+    kw = _real_kwargs(o, query_item_filter)
+    return normalize_url(url, unsplit=False, **kw), normalize_url(url, **kw)
+
+
+def _prepare(url, opts=None):
     from ural.patterns import CONTROL_CHARS_RE, PROTOCOL_RE
     from ural.quote import upper_quoted
     from ural.infer_redirection import infer_redirection as resolve
@@ -202,11 +243,7 @@ def ops(url, opts=None, query_item_filter=None):
 
 def real_normalize(url, opts=None, query_item_filter=None):
     """[tuple-or-string of unsplit=False, string] of the real function"""
-    from ural import normalize_url
-
-    kw = _real_kwargs(full_opts(opts), query_item_filter)
-    t = normalize_url(url, unsplit=False, **kw)
-    s = normalize_url(url, **kw)
+    t, s = real_both(url, opts, query_item_filter)
     return [list(t) if not isinstance(t, str) else t, s]
 
 
